@@ -30,4 +30,11 @@ CHECKS["C14"] = dict(
     note="Sizes are multiples of the unit except for +1-page requests; multi-GiB behaviours are sampled for the copying default allocator (all run with the guard allocator); amd64 only.",
 )
 
+CHECKS["C02"] = dict(
+    technique="TLA+ generator of structured access placements with the reference bounds semantics evaluated in TLC (MemAccess.tla); every program x input vector executed on both engines under guard pages and compared with the TLC-computed outcome",
+    text="TLC builds every well-nested function body of up to 4 tokens (accesses, calls, calls that grow and move the memory, memory.grow with positive and negative deltas, if/else joins, loops, run-time swaps of the address locals) plus seeded longer walks over a wide access alphabet (widths 1-16, static offsets up to 2^32-1), and evaluates the WebAssembly reference semantics on each for 28-56 input vectors (addresses around the size, 2^31, 2^32-1; both branch conditions; two initial sizes); the driver assembles each program with parameter and constant address provenance, runs it on the interpreter and the compiler with the default (moving) allocator and a PROT_NONE guard allocator, at page scale and GiB scale (memories over 2 GiB up to 4 GiB), in supervised child processes, and compares trap/no trap, loaded values, final size and memory contents with TLC's outcome; a faulting child is attributed to its program.",
+    design_ref="§4 C02",
+    note="Accesses outside the memory are seen through guard pages, canary regions and full comparison of small memories; atomics and bulk-memory instructions are not in the alphabet yet; amd64 only.",
+)
+
 NOT_YET = "check not built yet in this round (work in progress; see DESIGN.md §4)"
